@@ -39,7 +39,7 @@ func (c *Ctx) cryptoOffEdges(rule string, fn *ssa.Function) []Edge {
 // C02-R1: no success return of the receivers without AEAD verification or a crypto-off edge.
 func c02r1(c *Ctx) {
 	const rule = "C02-R1"
-	c.Doc(rule, "ReceiveFrame, ReceiveFrameWithEnd, decryptDataWithAAD: every path to a success return passes a nil-error decryptDataWithAAD / cipher.AEAD.Open call or an edge on which gcm==nil or !encrypted (T-MPT on edges; zero-ness-infeasible edges pruned)")
+	c.Doc(rule, "ReceiveFrame, ReceiveFrameWithEnd, decryptDataWithAAD: every path to a success return passes a nil-error decryptDataWithAAD / cipher.AEAD.Open call - made directly or inside a same-module helper all of whose success paths make it - or an edge on which gcm==nil or !encrypted (T-MPT on edges; zero-ness-infeasible edges pruned, in helpers from the facts every call site establishes)")
 	dec := c.needFn(rule, "stream", "(*Stream).decryptDataWithAAD")
 	open := c.aeadMethod(rule, "Open")
 	if dec == nil || open == nil {
@@ -51,26 +51,31 @@ func c02r1(c *Ctx) {
 		if fn == nil {
 			continue
 		}
-		cuts := newCuts().AddEdges(c.cryptoOffEdges(rule, fn)...)
 		var verifier types.Object = dec.Object()
 		if fn == dec {
 			verifier = open
 		}
-		calls := callsIn(fn, verifier)
-		for _, cs := range calls {
-			succ, _, checked := callErrEdges(fn, cs.Value())
-			if !checked {
+		hit := callHit(verifier)
+		extra := func(f *ssa.Function) []Edge {
+			es := c.cryptoOffEdges(rule, f)
+			for e, why := range infeasibleEdges(f) {
+				es = append(es, e)
+				c.Note("%s: pruned infeasible edge in %s at %s: %s", rule, fnName(f), c.Pos(e.From.Instrs[len(e.From.Instrs)-1].Pos()), why)
+			}
+			if f != fn {
+				es = append(es, c.zeroLenParamEdges(f)...)
+			}
+			return es
+		}
+		for _, cs := range callsIn(fn, verifier) {
+			if _, _, checked := callErrEdges(fn, cs.Value()); !checked {
 				c.Violate(rule, fnName(fn)+"#call:"+verifier.Name(), "the error result of "+verifier.Name()+" is never tested", cs.Pos())
 			}
-			cuts.AddEdges(succ...)
 		}
-		if len(calls) == 0 {
-			c.Violate(rule, fnName(fn)+"#call:"+verifier.Name(), "no call to "+verifier.Name()+" in "+fnName(fn), fn.Pos())
+		if a, m := c.deepSites(fn, hit); len(a)+len(m) == 0 {
+			c.Violate(rule, fnName(fn)+"#call:"+verifier.Name(), "no call to "+verifier.Name()+" in "+fnName(fn)+" (nor in a helper it calls on every success path)", fn.Pos())
 		}
-		for e, why := range infeasibleEdges(fn) {
-			cuts.AddEdges(e)
-			c.Note("%s: pruned infeasible edge in %s at %s: %s", rule, fnName(fn), c.Pos(e.From.Instrs[len(e.From.Instrs)-1].Pos()), why)
-		}
+		cuts := c.satisfyingCuts(fn, hit, extra, InlineDepth, nil)
 		tg := c.successTargets(fn)
 		n += len(tg)
 		c.mustPassReturns(rule, fn, tg, cuts, "AEAD verification ("+verifier.Name()+" with nil error) or a crypto-off edge")
@@ -98,7 +103,7 @@ func c02r2(c *Ctx) {
 		fns = append(fns, cs.Fn)
 		poss[cs.Fn] = cs.Call.Pos()
 	}
-	c.whoMay(rule, "call readWithContext", fns, poss, fnSet(rf, rfe))
+	c.whoMayDeep(rule, "call readWithContext", fns, poss, fnSet(rf, rfe))
 	c.MinCount(rule, "readWithContext call sites", len(fns), 4)
 	var rd, wr []*ssa.Function
 	for _, a := range c.fieldAccesses(reader) {
@@ -110,8 +115,8 @@ func c02r2(c *Ctx) {
 			rd = append(rd, a.Fn)
 		}
 	}
-	c.whoMay(rule, "read Stream.reader", rd, poss, fnSet(rwc))
-	c.whoMay(rule, "write Stream.reader", wr, poss, fnSet(ns, sc))
+	c.whoMayDeep(rule, "read Stream.reader", rd, poss, fnSet(rwc))
+	c.whoMayDeep(rule, "write Stream.reader", wr, poss, fnSet(ns, sc))
 	// no Read on s.conn anywhere in the module
 	nconn := 0
 	for _, a := range c.fieldAccesses(conn) {
@@ -167,40 +172,31 @@ func c02r3(c *Ctx) {
 			c.Undecided(rule, "Open#args", "unexpected Open signature", cs.Pos())
 			continue
 		}
-		c.Check(mustDepend(dec, args[1], isFieldAccess(ctr)), rule, "Open#nonce<-decryptCounter", "nonce depends on decryptCounter", "nonce of Open does not depend on decryptCounter: frames are not bound to their position", cs.Pos())
-		c.Check(mustDepend(dec, args[1], isFieldAccess(iv)), rule, "Open#nonce<-decryptIV", "nonce depends on decryptIV", "nonce of Open does not depend on decryptIV", cs.Pos())
-		c.Check(hdr != nil && mustDepend(dec, args[3], func(v ssa.Value) bool { return v == hdr }), rule, "Open#aad<-frameHeader", "AAD depends on the frame header on every branch", "on some branch the AAD of Open does not include the frame header", cs.Pos())
-		c.Check(mustDepend(dec, args[2], func(v ssa.Value) bool { return len(dec.Params) > 1 && v == dec.Params[1] }), rule, "Open#ciphertext<-data", "ciphertext is the received data", "ciphertext passed to Open is not derived from the received data", cs.Pos())
-		// stores to decryptCounter in dec are dominated by the nil-error edge of Open
+		c.Check(c.mustDependDeep(dec, args[1], isFieldAccess(ctr)), rule, "Open#nonce<-decryptCounter", "nonce depends on decryptCounter", "nonce of Open does not depend on decryptCounter: frames are not bound to their position", cs.Pos())
+		c.Check(c.mustDependDeep(dec, args[1], isFieldAccess(iv)), rule, "Open#nonce<-decryptIV", "nonce depends on decryptIV", "nonce of Open does not depend on decryptIV", cs.Pos())
+		c.Check(hdr != nil && c.mustDependDeep(dec, args[3], func(v ssa.Value) bool { return v == hdr }), rule, "Open#aad<-frameHeader", "AAD depends on the frame header on every branch", "on some branch the AAD of Open does not include the frame header", cs.Pos())
+		c.Check(c.mustDependDeep(dec, args[2], func(v ssa.Value) bool { return len(dec.Params) > 1 && v == dec.Params[1] }), rule, "Open#ciphertext<-data", "ciphertext is the received data", "ciphertext passed to Open is not derived from the received data", cs.Pos())
+		// every advance of decryptCounter (a store here, or a helper that stores) lies behind the nil-error edge of Open
 		succ, _, _ := callErrEdges(dec, cs.Value())
-		cuts := newCuts().AddEdges(succ...)
-		allInstrs(dec, func(_ *ssa.BasicBlock, _ int, in ssa.Instruction) {
-			if st, ok := in.(*ssa.Store); ok {
-				if fa, ok := st.Addr.(*ssa.FieldAddr); ok && fieldOfAddr(fa) == ctr {
-					c.mustPassInstr(rule, "decryptCounter++", dec, st, cuts, "a nil-error Open")
-					// and the store happens on every success path (counter advances exactly with accepted frames)
-				}
+		guards := func(f *ssa.Function) []Edge {
+			if f == dec {
+				return succ
 			}
-		})
-	}
-	// on every path from a nil-error Open to a success return the counter is advanced
-	for _, cs := range calls {
-		succ, _, _ := callErrEdges(dec, cs.Value())
-		var stores []ssa.Instruction
-		allInstrs(dec, func(_ *ssa.BasicBlock, _ int, in ssa.Instruction) {
-			if st, ok := in.(*ssa.Store); ok {
-				if fa, ok := st.Addr.(*ssa.FieldAddr); ok && fieldOfAddr(fa) == ctr {
-					stores = append(stores, st)
-				}
-			}
-		})
+			return nil
+		}
+		for _, w := range c.unguardedDeep(dec, storeHit(ctr), guards) {
+			c.Violate(rule, "decryptCounter++", "decryptCounter is advanced on a path that has not passed a nil-error Open", w.In.Pos(), c.describePath(w.Path)...)
+		}
+		always, _ := c.deepSites(dec, storeHit(ctr))
+		c.Check(len(always) > 0, rule, "decryptCounter++#exists", "decryptDataWithAAD advances decryptCounter", "decryptDataWithAAD never advances decryptCounter unconditionally after Open", cs.Pos())
+		// on every path from a nil-error Open to a success return the counter is advanced
 		okAll := len(succ) > 0
 		for _, e := range succ {
 			for _, t := range c.successTargets(dec) {
 				if len(e.To().Instrs) == 0 {
 					continue
 				}
-				if findPath(Point{e.To(), 0}, t.Target(), newCuts().AddInstrs(stores...)) != nil {
+				if findPath(Point{e.To(), 0}, t.Target(), newCuts().AddInstrs(always...)) != nil {
 					okAll = false
 				}
 			}
@@ -218,22 +214,26 @@ func c02r3(c *Ctx) {
 			poss[a.Fn] = a.Instr.Pos()
 		}
 	}
-	c.whoMay(rule, "write Stream.decryptCounter", wr, poss, fnSet(dec, ssk, imp))
+	c.whoMayDeep(rule, "write Stream.decryptCounter", wr, poss, fnSet(dec, ssk, imp))
 	// the base IV is taken from the wire only while decryptCounter == 0 (first frame); later frames cannot re-seat it
 	var ivW []*ssa.Function
-	nIV := 0
 	for _, a := range c.fieldAccesses(iv) {
-		if !a.Write {
-			continue
+		if a.Write {
+			ivW = append(ivW, a.Fn)
+			poss[a.Fn] = a.Instr.Pos()
 		}
-		ivW = append(ivW, a.Fn)
-		poss[a.Fn] = a.Instr.Pos()
-		if a.Fn != dec {
-			continue
+	}
+	isIVWrite := func(in ssa.Instruction) bool {
+		fa, ok := in.(*ssa.FieldAddr)
+		if !ok || fieldOfAddr(fa) != iv {
+			return false
 		}
-		nIV++
-		cuts := newCuts()
-		for _, b := range dec.Blocks {
+		w, _ := addrUses(fa)
+		return w
+	}
+	counterZeroEdges := func(f *ssa.Function) []Edge {
+		var es []Edge
+		for _, b := range f.Blocks {
 			ifi := blockIf(b)
 			if ifi == nil {
 				continue
@@ -245,7 +245,7 @@ func c02r3(c *Ctx) {
 				cond = ifi.Cond
 				at.Neg = false
 			}
-			for _, o := range origins(dec, cond) {
+			for _, o := range origins(f, cond) {
 				bo, ok := o.(*ssa.BinOp)
 				if !ok || bo.Op != token.EQL {
 					continue
@@ -253,36 +253,39 @@ func c02r3(c *Ctx) {
 				k, isC := constInt(bo.Y)
 				if isC && k == 0 && readsField(bo.X, ctr) {
 					if at.Neg {
-						cuts.AddEdges(Edge{b, 1})
+						es = append(es, Edge{b, 1})
 					} else {
-						cuts.AddEdges(Edge{b, 0})
+						es = append(es, Edge{b, 0})
 					}
 				}
 			}
 		}
-		c.mustPassInstr(rule, "decryptIV<-wire", dec, a.Instr, cuts, "the decryptCounter == 0 edge")
+		return es
 	}
-	c.whoMay(rule, "write Stream.decryptIV", ivW, poss, fnSet(dec, imp))
+	nIVa, nIVm := c.deepSites(dec, isIVWrite)
+	nIV := len(nIVa) + len(nIVm)
+	bad := c.unguardedDeep(dec, isIVWrite, counterZeroEdges)
+	for _, w := range bad {
+		c.Violate(rule, "decryptIV<-wire", "decryptIV is written on a path that has not passed the decryptCounter == 0 edge: a later frame could re-seat the base IV", w.In.Pos(), c.describePath(w.Path)...)
+	}
+	if len(bad) == 0 && nIV > 0 {
+		c.Ok(rule, "decryptIV<-wire", "every write of decryptIV on the receive path lies behind the decryptCounter == 0 edge", dec.Pos())
+	}
+	c.whoMayDeep(rule, "write Stream.decryptIV", ivW, poss, fnSet(dec, imp))
 	c.MinCount(rule, "writes of decryptIV in decryptDataWithAAD", nIV, 1)
-	// receivers pass the header they parsed
+	// every call of decryptDataWithAAD (in the receivers or in a helper of theirs) is handed the header buffer
+	// that readWithContext filled from the wire (directly, through a helper's result, or through a parameter
+	// that every caller fills that way)
 	n := 0
-	for _, name := range []string{"(*Stream).ReceiveFrame", "(*Stream).ReceiveFrameWithEnd"} {
-		fn := c.needFn(rule, "stream", name)
-		rwc := c.needFn(rule, "stream", "(*Stream).readWithContext")
-		if fn == nil || rwc == nil {
-			continue
-		}
-		for _, cs := range callsIn(fn, dec.Object()) {
-			n++
-			h := cs.Common().Args[2]
-			// the header slice must be a buffer passed to readWithContext and indexed for flag/length
-			filled := false
-			for _, rc := range callsIn(fn, rwc.Object()) {
-				if memRoot(rc.Common().Args[2]) == memRoot(h) {
-					filled = true
-				}
+	rwc := c.needFn(rule, "stream", "(*Stream).readWithContext")
+	if rwc != nil {
+		for _, cs := range c.callSites(dec.Object()) {
+			if pk := fnPkg(cs.Fn); pk == nil || !libPkg(pk.Path()) {
+				continue
 			}
-			c.Check(filled, rule, fnName(fn)+"#header-arg", "the header handed to decryptDataWithAAD is the buffer read from the wire", "the header handed to decryptDataWithAAD is not the buffer filled by readWithContext", cs.Pos())
+			n++
+			h := cs.Call.Common().Args[2]
+			c.Check(c.filledBy(cs.Fn, h, rwc.Object(), 2, 3), rule, fnName(cs.Fn)+"#header-arg", "the header handed to decryptDataWithAAD is the buffer read from the wire", "the header handed to decryptDataWithAAD is not the buffer filled by readWithContext", cs.Call.Pos())
 		}
 	}
 	c.MinCount(rule, "decryptDataWithAAD call sites in receivers", n, 2)
@@ -302,7 +305,7 @@ func c02r4(c *Ctx) {
 		if fn == nil {
 			continue
 		}
-		for _, cs := range callsIn(fn, rfe.Object()) {
+		for _, cs := range c.c02FrameReads(fn, rfe.Object(), 1, 2) {
 			n++
 			flag := extractN(cs.Value(), 1)
 			used := false
@@ -333,12 +336,7 @@ func c02r4(c *Ctx) {
 			if !isC || idx != 0 {
 				return false
 			}
-			for _, rc := range callsIn(rfe, rwc.Object()) {
-				if memRoot(rc.Common().Args[2]) == memRoot(ia.X) {
-					return true
-				}
-			}
-			return false
+			return c.filledBy(rfe, ia.X, rwc.Object(), 2, 3)
 		})
 		c.Check(ok, rule, fnName(rfe)+"#flag-result", "returned end flag is byte 0 of the header read from the wire", "returned end flag is not byte 0 of the header read from the wire", t.Ret.Pos())
 	}
@@ -382,7 +380,12 @@ func c02r5(c *Ctx) {
 		if fn == nil {
 			continue
 		}
-		calls := callsIn(fn, s.callee)
+		calls := c.c02FrameReads(fn, s.callee, 1, 2)
+		if len(calls) == 0 {
+			// the frame read may sit in a helper that does more than pass it on (e.g. also buffers the data):
+			// then the helper's own error result stands for the read's
+			calls = c.callsInDeep(fn, s.callee)
+		}
 		if len(calls) == 0 {
 			c.Violate(rule, fnName(fn)+"#frame-read", "no call to "+s.callee.Name()+" found", fn.Pos())
 			continue
@@ -488,50 +491,59 @@ func init() { register("C02", c02r6, c02r7) }
 func c02r6(c *Ctx) {
 	const rule = "C02-R6"
 	c.Doc(rule, "in message.ensureData every path from the nil-error edge of StreamInterface.ReadFrame to the next frame read or to any return stores that frame's end-of-message result into Message.isEOM (an accepted frame's authenticated boundary is never dropped), and isEOM is written nowhere else but constructors")
-	fn := c.needFn(rule, "message", "(*Message).ensureData")
+	ens := c.needFn(rule, "message", "(*Message).ensureData")
 	isEOM := c.needField(rule, "message", "Message", "isEOM")
 	rf := c.msgReadFrame(rule)
-	if fn == nil || isEOM == nil || rf == nil {
+	if ens == nil || isEOM == nil || rf == nil {
 		return
 	}
-	calls := callsIn(fn, rf)
-	for _, cs := range calls {
-		flag := extractN(cs.Value(), 1)
-		succ, _, checked := callErrEdges(fn, cs.Value())
-		if flag == nil || !checked {
-			c.Violate(rule, fnName(fn)+"#ReadFrame", "the end-of-message result or the error of ReadFrame is unused", cs.Pos())
+	// the function(s) that actually call ReadFrame on behalf of ensureData: itself, or a helper it calls
+	nCalls := 0
+	for fn := range c.reachableFns([]*ssa.Function{ens}, false) {
+		if fnPkg(fn) != fnPkg(ens) {
 			continue
 		}
-		var stores []ssa.Instruction
-		allInstrs(fn, func(_ *ssa.BasicBlock, _ int, in ssa.Instruction) {
-			if st, ok := in.(*ssa.Store); ok {
-				if fa, ok := st.Addr.(*ssa.FieldAddr); ok && fieldOfAddr(fa) == isEOM && st.Val == flag {
-					stores = append(stores, st)
-				}
-			}
-		})
-		cuts := newCuts().AddInstrs(stores...)
-		var targets []Target
-		for _, r := range c.returnsOf(fn) {
-			targets = append(targets, r.Target())
-		}
-		targets = append(targets, Target{Instr: cs.(ssa.Instruction)})
-		ok := len(stores) > 0
-		var wit []string
-		for _, e := range succ {
-			if len(e.To().Instrs) == 0 {
+		calls := callsIn(fn, rf)
+		for _, cs := range calls {
+			nCalls++
+			flag := extractN(cs.Value(), 1)
+			succ, _, checked := callErrEdges(fn, cs.Value())
+			if flag == nil || !checked {
+				c.Violate(rule, fnName(fn)+"#ReadFrame", "the end-of-message result or the error of ReadFrame is unused", cs.Pos())
 				continue
 			}
-			for _, t := range targets {
-				if p := findPath(Point{e.To(), 0}, t, cuts); p != nil {
-					ok = false
-					wit = c.describePath(p)
+			var stores []ssa.Instruction
+			allInstrs(fn, func(_ *ssa.BasicBlock, _ int, in ssa.Instruction) {
+				if st, ok := in.(*ssa.Store); ok {
+					if fa, ok := st.Addr.(*ssa.FieldAddr); ok && fieldOfAddr(fa) == isEOM && st.Val == flag {
+						stores = append(stores, st)
+					}
+				}
+			})
+			cuts := newCuts().AddInstrs(stores...)
+			var targets []Target
+			for _, r := range c.returnsOf(fn) {
+				targets = append(targets, r.Target())
+			}
+			targets = append(targets, Target{Instr: cs.(ssa.Instruction)})
+			ok := len(stores) > 0
+			var wit []string
+			for _, e := range succ {
+				if len(e.To().Instrs) == 0 {
+					continue
+				}
+				for _, t := range targets {
+					if p := findPath(Point{e.To(), 0}, t, cuts); p != nil {
+						ok = false
+						wit = c.describePath(p)
+					}
 				}
 			}
+			c.Check(ok, rule, fnName(fn)+"#isEOM<-ReadFrame", "every accepted frame's end flag is recorded before the next read or return", "an accepted frame's end-of-message flag can be dropped (the next message would be merged into this one)", cs.Pos(), wit...)
 		}
-		c.Check(ok, rule, fnName(fn)+"#isEOM<-ReadFrame", "every accepted frame's end flag is recorded before the next read or return", "an accepted frame's end-of-message flag can be dropped (the next message would be merged into this one)", cs.Pos(), wit...)
 	}
-	c.MinCount(rule, "ReadFrame calls in ensureData", len(calls), 1)
+	c.MinCount(rule, "ReadFrame calls on behalf of ensureData", nCalls, 1)
+	fn := ens
 	// writers of isEOM: ensureData and the two constructors only
 	var wr []*ssa.Function
 	poss := map[*ssa.Function]token.Pos{}
@@ -541,7 +553,7 @@ func c02r6(c *Ctx) {
 			poss[a.Fn] = a.Instr.Pos()
 		}
 	}
-	c.whoMay(rule, "write Message.isEOM", wr, poss, fnSet(fn, c.LookupFn("message", "NewMessageFromStream"), c.LookupFn("message", "NewMessageForStream")))
+	c.whoMayDeep(rule, "write Message.isEOM", wr, poss, fnSet(fn, c.LookupFn("message", "NewMessageFromStream"), c.LookupFn("message", "NewMessageForStream")))
 }
 
 func (c *Ctx) msgReadFrame(rule string) types.Object {
@@ -717,4 +729,70 @@ func (c *Ctx) c02RawErrorLeaf(fn *ssa.Function, seen map[*ssa.Function]bool, dep
 		}
 	}
 	return nil
+}
+
+// c02FrameReads lists the calls in fn that read a frame: direct calls to target, and calls to same-module
+// wrappers that hand back target's results unchanged (same arity; on every non-error return, result #flagIdx is
+// result #flagIdx of a target call made inside, or of a nested wrapper).
+func (c *Ctx) c02FrameReads(fn *ssa.Function, target types.Object, flagIdx int, depth int) []ssa.CallInstruction {
+	var out []ssa.CallInstruction
+	allInstrs(fn, func(_ *ssa.BasicBlock, _ int, in ssa.Instruction) {
+		call, ok := in.(ssa.CallInstruction)
+		if !ok {
+			return
+		}
+		if _, isGo := in.(*ssa.Go); isGo {
+			return
+		}
+		if _, isDefer := in.(*ssa.Defer); isDefer {
+			return
+		}
+		if o := calleeObj(call); o != nil && types.Object(o) == target {
+			out = append(out, call)
+			return
+		}
+		g := calleeFn(call)
+		if !isModuleFn(g) || g == fn || depth <= 0 {
+			return
+		}
+		tsig, ok := target.Type().(*types.Signature)
+		if !ok || g.Signature.Results().Len() != tsig.Results().Len() {
+			return
+		}
+		inner := c.c02FrameReads(g, target, flagIdx, depth-1)
+		if len(inner) == 0 {
+			return
+		}
+		passes, n := true, 0
+		for _, r := range c.returnsOf(g) {
+			if r.Class == "error" || flagIdx >= len(r.Ret.Results) {
+				continue
+			}
+			n++
+			okRet := false
+			for _, o := range origins(g, r.Ret.Results[flagIdx]) {
+				oc, idx := originCall(o)
+				if oc == nil || idx != flagIdx {
+					okRet = false
+					break
+				}
+				okRet = false
+				for _, ic := range inner {
+					if ic == oc {
+						okRet = true
+					}
+				}
+				if !okRet {
+					break
+				}
+			}
+			if !okRet {
+				passes = false
+			}
+		}
+		if passes && n > 0 {
+			out = append(out, call)
+		}
+	})
+	return out
 }
